@@ -149,7 +149,7 @@ def runLine (vv : VVariant) (sv : SortVariant) (lv : ListVariant) (line : String
       let sort : Option Str := if keys == "-" then none else some (unhex keys.toList)
       showIdx (sortSectionIdx ⟨true⟩ sort xs)
     | none => "parse-error"
-  | ["R", pfx, lim, query, d, l, m] =>
+  | "R" :: pfx :: lim :: query :: d :: l :: m :: _ =>
     let sec (s : String) : Option (Option (List J)) := if s == "-" then some none else (parseMany (tokens s)).map some
     match lim.splitOn ",", parseMany (tokens d), sec l, sec m with
     | [a, b], some d, some l, some m =>
